@@ -93,7 +93,12 @@ def lock_classes(runner):
 
 def run_impl(scn):
     r = impl_conc.ConcRunner(scn)
-    out = r.run()
+    try:
+        out = r.run()
+    finally:
+        # other runners in this process (sequential, asyncio) use the real threading / queue modules
+        from .. import coop
+        coop.uninstall()
     try:
         names = lock_classes(r)
     except Exception:  # noqa: BLE001
